@@ -262,7 +262,13 @@ fn fam_enum(tier: &str) -> Report {
                                 }
                                 Outcome::SynErr(m) => { cl[1] += 1; rep.check(!m.is_empty(), &input, "syn error without a message"); }
                                 Outcome::ConfigReject(m) => { cl[2] += 1; rep.check(!m.is_empty(), &input, "rejection without a message"); }
-                                Outcome::OtherPanic(m) => { cl[3] += 1; rep.check(false, &format!("[{}] {}", KINDS[kd].0, input), &format!("internal panic instead of a diagnostic: {}", m)); }
+                                Outcome::OtherPanic(m) => {
+                                    cl[3] += 1;
+                                    // outside C15's quantifier: a `..` operand that is not a member access (e.g. `.. ( c )` inside a wrapper
+                                    // reaches parse_quote! with `__v . ( c )`)
+                                    let outside = member_access_operand_is_not_member(&words);
+                                    rep.check(outside, &format!("[{}] {}", KINDS[kd].0, input), &format!("internal panic instead of a diagnostic: {}", m));
+                                }
                             }
                         }
                         // next (keep idx[0] fixed)
